@@ -50,6 +50,26 @@ Proof.
   repeat split; apply near_ok; assumption.
 Qed.
 
+Lemma near_ok_signed box off g x : 3 <= g -> (0 < box)%Q -> (- box < off * inject_Z g)%Q -> (off * inject_Z g < box)%Q ->
+  (0 <= x)%Q -> (x <= box)%Q -> i_ok g (near box off g x).
+Proof.
+  intros Hg Hb Ho Hh H0 H1. unfold near.
+  destruct (grid_coord_range_signed x off box g) as [A B]; try assumption; try lia.
+  apply i_ok_of_range_signed; assumption.
+Qed.
+
+Lemma domain_adm_tsc_signed_lemma box off n0 n1 n2 x y z w :
+  (0 < box)%Q -> 3 <= n0 -> 3 <= n1 -> 3 <= n2 ->
+  (- box < off * inject_Z n0)%Q /\ (off * inject_Z n0 < box)%Q ->
+  (- box < off * inject_Z n1)%Q /\ (off * inject_Z n1 < box)%Q ->
+  (- box < off * inject_Z n2)%Q /\ (off * inject_Z n2 < box)%Q ->
+  (0 <= x)%Q /\ (x <= box)%Q -> (0 <= y)%Q /\ (y <= box)%Q -> (0 <= z)%Q /\ (z <= box)%Q ->
+  adm TSC box off n0 n1 n2 (x, y, z, w).
+Proof.
+  intros Hb N0 N1 N2 [A0 B0] [A1 B1] [A2 B2] [X0 X1] [Y0 Y1] [Z0 Z1]. cbn [adm adm_tsc].
+  repeat split; apply near_ok_signed; assumption.
+Qed.
+
 Lemma domain_adm_tsc_no_offset_lemma box n0 n1 n2 x y z w :
   (0 < box)%Q -> 2 <= n0 -> 2 <= n1 -> 2 <= n2 ->
   (0 <= x)%Q /\ (x <= box)%Q -> (0 <= y)%Q /\ (y <= box)%Q -> (0 <= z)%Q /\ (z <= box)%Q ->
